@@ -15,6 +15,15 @@
 //	return s.start.Add(s.doAt(i)), true          LAct ARetByIndex   (the two statements together)
 //	left := int(s.n - s.i.Load()); if left < 0 { return 0 }; return left      LAct ALoadLeft
 //
+// unlilmited.go (methods of unlimitedSchedule):
+//
+//	s.MarkStarted()                                   LAct AMarkStartedU
+//	s.finish.Store(time.Now().Add(s.duration))        LAct AStoreFinNow
+//	s.finish.Store(<parameter of Start>.Add(s.duration))   LAct AStoreFinArg
+//	now := time.Now()                                 LAct AReadNow
+//	finish := s.finish.Load(); if now.Before(finish) {...}; return finish, false     LAct ARetUnl
+//	if !s.IsStarted() || time.Now().Before(s.finish.Load()) { return -1 }; return 0  LAct ALeftUnlA; LAct ALeftUnlB
+//
 // start_sync.go: MarkStarted must be `if s.started.Swap(true) { panic(...) }`, IsStarted must be
 // `return s.started.Load()`.
 package main
@@ -54,9 +63,24 @@ func method(f *ast.File, recv, name string) *ast.FuncDecl {
 
 type tr struct {
 	startParam string
+	unl        bool // methods of unlimitedSchedule
 }
 
 func (t *tr) act(s ast.Stmt) (string, error) {
+	if t.unl {
+		switch src(s) {
+		case "s.MarkStarted()":
+			return "AMarkStartedU", nil
+		case "s.finish.Store(time.Now().Add(s.duration))":
+			return "AStoreFinNow", nil
+		case "now := time.Now()":
+			return "AReadNow", nil
+		}
+		if t.startParam != "" && src(s) == "s.finish.Store("+t.startParam+".Add(s.duration))" {
+			return "AStoreFinArg", nil
+		}
+		return "", fmt.Errorf("%s: unsupported statement `%s`", fset.Position(s.Pos()), src(s))
+	}
 	switch src(s) {
 	case "s.MarkStarted()":
 		return "AMarkStarted", nil
@@ -85,6 +109,19 @@ func (t *tr) stmts(l []ast.Stmt) ([]string, error) {
 		if i+2 < len(l) && src(s) == "left := int(s.n - s.i.Load())" && src(l[i+1]) == "if left < 0 { return 0 }" && src(l[i+2]) == "return left" {
 			out = append(out, "LAct ALoadLeft")
 			i += 2
+			continue
+		}
+		// unlimitedSchedule: the answer from the clock reading and the finish time
+		if t.unl && i+2 < len(l) && src(s) == "finish := s.finish.Load()" &&
+			src(l[i+1]) == "if now.Before(finish) { if start := finish.Add(-s.duration); now.Before(start) { return start, true } return now, true }" &&
+			src(l[i+2]) == "return finish, false" {
+			out = append(out, "LAct ARetUnl")
+			i += 2
+			continue
+		}
+		if t.unl && i+1 < len(l) && src(s) == "if !s.IsStarted() || time.Now().Before(s.finish.Load()) { return -1 }" && src(l[i+1]) == "return 0" {
+			out = append(out, "LAct ALeftUnlA", "LAct ALeftUnlB")
+			i++
 			continue
 		}
 		if es, ok := s.(*ast.ExprStmt); ok {
@@ -129,7 +166,7 @@ func gen(repo, out string) error {
 		return err
 	}
 	var b strings.Builder
-	b.WriteString("(* generated by harness/cmd/trC02 from core/schedule/do_at.go and start_sync.go - do not edit *)\n")
+	b.WriteString("(* generated by harness/cmd/trC02 from core/schedule/do_at.go, unlilmited.go and start_sync.go - do not edit *)\n")
 	b.WriteString("From Coq Require Import List.\nFrom PV Require Import Model.SchedLeafConc.\nImport ListNotations.\n\n")
 	for _, m := range []struct{ name, def string }{{"Next", "gen_doat_next"}, {"Start", "gen_doat_start"}, {"Left", "gen_doat_left"}} {
 		fd := method(f, "doAtSchedule", m.name)
@@ -184,6 +221,41 @@ func gen(repo, out string) error {
 		}
 	}
 	ssOK := strings.Contains(ss, "started atomic.Bool") && strings.Contains(ss, "startOnce sync.Once")
+	// unlilmited.go
+	p3 := filepath.Join(repo, "core", "schedule", "unlilmited.go")
+	f3, err := parser.ParseFile(fset, p3, nil, 0)
+	if err != nil {
+		return err
+	}
+	for _, m := range []struct{ name, def string }{{"Next", "gen_unl_next"}, {"Start", "gen_unl_start"}, {"Left", "gen_unl_left"}} {
+		fd := method(f3, "unlimitedSchedule", m.name)
+		if fd == nil || fd.Body == nil {
+			return fmt.Errorf("%s: method unlimitedSchedule.%s not found", p3, m.name)
+		}
+		t := &tr{unl: true}
+		if m.name == "Start" {
+			if len(fd.Type.Params.List) != 1 || len(fd.Type.Params.List[0].Names) != 1 {
+				return fmt.Errorf("%s: unexpected parameters of Start", p3)
+			}
+			t.startParam = fd.Type.Params.List[0].Names[0].Name
+		}
+		l, err := t.stmts(fd.Body.List)
+		if err != nil {
+			return err
+		}
+		fmt.Fprintf(&b, "Definition %s : list lstmt := [%s].\n", m.def, strings.Join(l, "; "))
+	}
+	us := ""
+	for _, d := range f3.Decls {
+		if gd, ok := d.(*ast.GenDecl); ok {
+			for _, sp := range gd.Specs {
+				if ts, ok := sp.(*ast.TypeSpec); ok && ts.Name.Name == "unlimitedSchedule" {
+					us = src(ts.Type)
+				}
+			}
+		}
+	}
+	fmt.Fprintf(&b, "Definition gen_unl_fields_ok : bool := %v.\n", strings.Contains(us, "finish *atomic.Time") && strings.Contains(us, "StartSync"))
 	fmt.Fprintf(&b, "Definition gen_markstarted_swap_panics : bool := %v.\n", msOK)
 	fmt.Fprintf(&b, "Definition gen_isstarted_is_load : bool := %v.\n", isOK && ssOK)
 	return os.WriteFile(out, []byte(b.String()), 0o644)
